@@ -31,7 +31,7 @@ Proof. intros Ha Hab. apply Rinv_le_contravar; assumption. Qed.
 (* ------------------------------------------------------------------ Ramp *)
 
 Lemma Ramp_tsukamoto_R (s e h y : R) : Ramp_tsukamoto s e h y = s + (e - s) * y / h.
-Proof. unfold Ramp_tsukamoto; cbv zeta; unR. reflexivity. Qed.
+Proof. unfold Ramp_tsukamoto; cbv zeta; unR. unfold Rdiv; ring. Qed.
 
 Lemma Ramp_z_in_support_inc (s e h y : R) : s < e -> 0 < y < h -> s < Ramp_tsukamoto s e h y < e.
 Proof.
